@@ -22,7 +22,7 @@ from ..core import Ctx
 REPO = "/repo"
 ROOT = os.path.dirname(os.path.dirname(os.path.dirname(os.path.abspath(__file__))))
 
-MONITOR_OF = {"C02": "assembly", "C03": "assembly", "C04": "bc", "C05": "timestep", "C08": "location", "C11": "law", "C12": "fearray", "C14": "stale", "C15": "history",
+MONITOR_OF = {"C02": "assembly", "C03": "assembly", "C04": "bc", "C05": "timestep", "C08": "location", "C11": "law", "C12": "fearray", "C14": "perturb,stale", "C15": "history",
               "C17": "phasefield", "C19": "integrate"}
 
 # workloads: ("tests", [paths relative to /repo]) or ("examples", [glob patterns relative to /repo/examples], cap seconds per script)
